@@ -6,7 +6,7 @@ from ..engine import Finding
 
 ID = 'C18'
 TITLE = 'decorators are transparent: same results, same signature, no double wrapping'
-LEAN_FILES = ['Basic', 'Bind', 'Cache', 'Wrap', 'WrapHist', 'Try', 'BindDriver', 'Cmp', 'BindLemmas', 'CacheLemmas', 'CacheKeyLemmas', 'WrapLemmas', 'WrapHistLemmas', 'WrapHistSharp', 'ResDec', 'C18']
+LEAN_FILES = ['Basic', 'Bind', 'Cache', 'Wrap', 'WrapHist', 'Try', 'BindDriver', 'Cmp', 'BindLemmas', 'CacheLemmas', 'CacheKeyLemmas', 'WrapLemmas', 'WrapHistLemmas', 'WrapHistSharp', 'Pd2npLemmas', 'ResDec', 'C18']
 RULE = ('distinct protocol lines (inside the domain of the model) on which the implementation returned a value: a (signature, call) pair bound / called / '
         'round-tripped, a (signature, decorator stack, call) triple, a construction sequence of wrappers, or a cache history '
         '(on a cached function or through a decorator stack) with at least two calls; calls without any argument on a parameterless function are not counted')
